@@ -187,3 +187,24 @@ Example rebind_is_observable :
   writeback sigma [[0]] [A 7] = VProd [A 7; A 1] /\
   writeback sigma [[0]] [A 7] <> sigma.
 Proof. cbv zeta. repeat split; try reflexivity. vm_compute. discriminate. Qed.
+
+(* comprehension_carries_every_used_place.  About the loop regenerated from
+   BBLinearityChecker._check_comprehension (GenFuncTy.used_outer_places / returned_leaves):
+   every place of the outer scope that the comprehension body uses -- copyable or not -- is in
+   gen.used_outer_places (and is therefore an input and an output of the TailLoop that the
+   compiler builds from that list), in order of use; and every leaf of every BORROWED place is
+   marked as implicitly returned.  The compiled effect -- each leaf of a lent place is loop-carried
+   -- is checked on the HUGR on every run (gen_extra.comprehension_cases). *)
+Theorem comprehension_carries_every_used_place :
+  forall (X Pl U : Type) (inner_scope : X -> Pl) (is_borrow : U -> bool) (leaf_places : Pl -> list Pl)
+         (used_parent : list (X * U)),
+    length (used_outer_places X Pl U inner_scope used_parent) = length used_parent /\
+    (forall x use, In (x, use) used_parent -> In (inner_scope x) (used_outer_places X Pl U inner_scope used_parent)) /\
+    (forall x use leaf, In (x, use) used_parent -> is_borrow use = true -> In leaf (leaf_places (inner_scope x)) ->
+       In leaf (returned_leaves X Pl U inner_scope is_borrow leaf_places used_parent)).
+Proof.
+  intros. unfold used_outer_places, returned_leaves. split; [apply map_length|]. split.
+  - intros x use H. apply in_map_iff. exists (x, use). auto.
+  - intros x use leaf H B L. apply in_flat_map. exists (x, use). split; auto. simpl. rewrite B. exact L.
+Qed.
+Print Assumptions comprehension_carries_every_used_place.
